@@ -41,6 +41,8 @@ API_ROLE = {
     "dump_one": {"data": "<load>", "filename": "outfn", "fmt": "outfmt", "allow_changes": "allow_changes"},
     "dump_many": {"iter_data": "<load>", "filename": "outfn", "fmt": "outfmt", "allow_changes": "allow_changes"},
 }
+EXPLANATION += " (R5) the CLI passes allow_changes and the API's pre-flight decides; required lists are truthful and segmentation agrees with the API (evaluated); (R6) library handlers that name arithmetic exceptions raise on every path (only the CLI traps floating-point errors); (R7) no set iteration order reaches a written file."
+TECHNIQUE += '; set-iteration-order dataflow rule; all-paths-raise on arithmetic handlers'
 
 
 def _polarity_of_many(test, param="many"):
